@@ -31,19 +31,19 @@ const maxCondVars = 22
 type AtomRecogniser func(leaf ssa.Value) (name string, neg bool)
 
 type CondSpace struct {
-	Fn      *ssa.Function
-	Vars    []string           // variable keys, index = bit position
-	VarVal  []ssa.Value        // a representative SSA leaf per variable (nil for pre-registered atoms never seen)
-	LoopVar []bool             // variable is tested by a loop header
-	idx     map[string]int     // key -> index
-	words   int                // len(Bits)
-	In      map[*ssa.BasicBlock]Bits
-	Univ    Bits               // mutual-exclusion constraints between atoms
-	rec     AtomRecogniser
-	forms   map[*ssa.BasicBlock]*cformula
+	Fn       *ssa.Function
+	Vars     []string       // variable keys, index = bit position
+	VarVal   []ssa.Value    // a representative SSA leaf per variable (nil for pre-registered atoms never seen)
+	LoopVar  []bool         // variable is tested by a loop header
+	idx      map[string]int // key -> index
+	words    int            // len(Bits)
+	In       map[*ssa.BasicBlock]Bits
+	Univ     Bits // mutual-exclusion constraints between atoms
+	rec      AtomRecogniser
+	forms    map[*ssa.BasicBlock]*cformula
 	phiDepth int
-	err     string
-	backTo  map[*ssa.BasicBlock]bool // loop headers
+	err      string
+	backTo   map[*ssa.BasicBlock]bool // loop headers
 }
 
 func (cs *CondSpace) newBits(fill bool) Bits {
